@@ -3,3 +3,5 @@ pub mod c05;
 pub mod c03;
 pub mod c09;
 pub mod c11;
+pub mod c08;
+pub mod c15;
